@@ -29,6 +29,7 @@ var exprFaults = []exprFault{
 	{"strplus", "s + 1", false, "false", "arithmetic"},
 	{"strless", "s < 1", true, "false", "compare"},
 	{"intand", "x && b", true, "false", "logic"},
+	{"cyclicor", "cyc || b", true, "false", "logic"},
 	{"ifaceadd", "fi() + 1", false, "false", "arithmetic"},
 	{"boom", "boom()", false, "false", "call"},
 	{"boomint", "boomint()", false, "false", "call"},
@@ -184,6 +185,9 @@ func mkWorld() *world {
 	w.dc.Add("boomstruct", func() int64 { panic(In{A: 7}) })
 	w.dc.Add("boomerr", func() int64 { panic(errBoom{}) })
 	w.dc.Add("dd", &CD{I: 2, P: &In{A: 1}})
+	cyc := map[string]interface{}{"k": int64(1)}
+	cyc["self"] = cyc // a value that contains itself: printing it in full never ends
+	w.dc.Add("cyc", cyc)
 	w.set(w.z, w.ix, w.npnil, w.pnil)
 	if !w.lm {
 		w.dc.Add("late", &CD{I: 3, P: &In{A: 4}})
